@@ -726,6 +726,114 @@ pub fn meta(a: &Args, rep: &mut Report) {
     }
 }
 
+// ------------------------------------------------------------------------------------------
+// dropbomb (C09): a drain_filter dropped early must remove every remaining match even if the
+// destructor of one of them panics
+// ------------------------------------------------------------------------------------------
+
+pub fn dropbomb(a: &Args, rep: &mut Report) {
+    let sh = Shard::from_args(a);
+    let focus = static_prop(&rep.prop);
+    let mut rng = sh.rng(0xb03b);
+    type T = Tr<true>;
+    for h in 0..sh.n {
+        let mut hr = rng.fork();
+        let size = if cfg!(miri) { *hr.pick(&[4usize, 15]) } else { *hr.pick(&[2usize, 5, 14, 15, 20, 29, 40, 61, 100]) };
+        let state = hr.below(6);
+        let cfg = Cfg { elem: ElemKind::TrHeap, bh: Bh::new(*hr.pick(&[HMode::Good, HMode::Identity]), hr.below(3)), cap: usize::MAX, check_every: 1, cursor_every: 1, focus };
+        let mut s: Sess<T, T> = Sess::new(&cfg);
+        let mut next = 1000;
+        if !chain_state_pub(&mut s, state, size, &mut next) || !s.ok() {
+            if s.ok() {
+                std::mem::forget(s);
+            } else {
+                let tag = format!("dropbomb-build-{}-s{}-i{}-h{}", flavour(), sh.seed, sh.index, h);
+                rep.record(&cfg, &tag, s.finish(), |_| false);
+            }
+            continue;
+        }
+        let olds = s.keys_at(true);
+        let all: Vec<u64> = s.mon.model.keys().copied().collect();
+        let pred_list = match hr.below(4) {
+            0 => pred_all(),
+            1 if !olds.is_empty() => pred_keys(&olds),
+            2 => pred_mod(2, 0),
+            _ => pred_keys(&all.iter().copied().filter(|_| hr.chance(2, 3)).collect::<Vec<_>>()),
+        };
+        let pred = Pred::parse(&pred_list);
+        let matching: Vec<u64> = all.iter().copied().filter(|k| pred.eval(*k)).collect();
+        if matching.len() < 2 {
+            std::mem::forget(s);
+            continue;
+        }
+        let bomb_key = *hr.pick(&matching);
+        let bomb_in_old = olds.contains(&bomb_key);
+        let bomb_id = if hr.chance(1, 2) { s.mon.model[&bomb_key].vid } else { s.mon.model[&bomb_key].kid };
+        let split = s.mon.state().old.as_ref().map_or(false, |o| o.table.len > 0);
+        rep.evaluations += 1;
+        let tag = format!("dropbomb-{}-s{}-i{}-h{}", flavour(), sh.seed, sh.index, h);
+        let body = vec![
+            ("kind", "dropbomb".to_string()),
+            ("build_ops", s.ops.iter().map(|o| o.encode()).collect::<Vec<_>>().join("; ")),
+            ("predicate", format!("{pred_list:?}")),
+            ("bomb", format!("key {bomb_key} object {bomb_id}")),
+        ];
+        set_drop_bomb(bomb_id);
+        let map = &mut s.mon.map;
+        let r = catch(|| {
+            let it = map.drain_filter(|k, _| pred.eval(k.val()));
+            drop(it);
+        });
+        let fired = !drop_bomb_armed();
+        set_drop_bomb(0);
+        match r {
+            Err(p) if p.contains(DROP_BOMB_MSG) => {}
+            Err(p) => {
+                rep.direct_violation("C09", &tag, &format!("drain_filter drop with a panicking destructor: secondary panic {p}"), &body);
+                std::mem::forget(s);
+                continue;
+            }
+            Ok(()) => {
+                if !fired {
+                    rep.harness_errors.push("drop bomb never went off".into());
+                    std::mem::forget(s);
+                    continue;
+                }
+                rep.direct_violation("C09", &tag, "a panicking destructor inside DrainFilter::drop was swallowed", &body);
+                std::mem::forget(s);
+                continue;
+            }
+        }
+        // every matching element must be gone, the others untouched
+        for k in &matching {
+            s.mon.model.remove(k);
+        }
+        s.mon.since_growth = None;
+        let left: Vec<u64> = matching.iter().copied().filter(|k| s.mon.map.contains_key(&T::mk(*k))).collect();
+        if !left.is_empty() {
+            rep.direct_violation("C09", &tag, &format!("drain_filter was dropped early; the destructor of key {bomb_key} panicked (caught) and {} matching elements were left in the map: {:?}", left.len(), crate::exec::abbreviate(&left)), &body);
+            std::mem::forget(s);
+            continue;
+        }
+        s.go(Op::new(Code::FullCheck));
+        for _ in 0..10 {
+            s.insert_new(&mut next);
+        }
+        s.go(Op::new(Code::FullCheck));
+        rep.bump("dropbomb_cases", 1);
+        if bomb_in_old {
+            rep.bump("dropbomb_in_old_table", 1);
+        }
+        let out = s.finish();
+        if out.viol.is_none() && split {
+            rep.nontrivial.insert(digest([history_digest(&out.ops), bomb_id]));
+            rep.sample(format!("{} elements (scenario {state}), drain_filter({pred_list:?}) dropped unconsumed, destructor of key {bomb_key} panics", all.len()));
+        }
+        rep.evaluations -= 1;
+        rep.record(&cfg, &tag, out, |_| false);
+    }
+}
+
 pub fn noop(_a: &Args, rep: &mut Report) {
     rep.evaluations = 0;
 }
